@@ -27,6 +27,10 @@ pub(crate) struct Batch {
 	// the pipeline overwrites it before the batch is written to WAL.
 	pub(crate) starting_seq_num: u64,
 	pub(crate) size: u64, // Total size of all records (not serialized)
+	// The WAL segment this batch's record was appended to (not serialized).
+	// Set by the commit path when the record is written; `None` for batches
+	// that did not come through it (replay, tests).
+	pub(crate) wal_number: Option<u64>,
 }
 
 impl Default for Batch {
@@ -43,6 +47,7 @@ impl Batch {
 			version: BATCH_VERSION,
 			starting_seq_num,
 			size: 0,
+			wal_number: None,
 		}
 	}
 
@@ -287,6 +292,7 @@ impl Batch {
 			valueptrs,
 			starting_seq_num: seq_num,
 			size: 0, // Decoded batches don't track size
+			wal_number: None,
 		})
 	}
 }
